@@ -141,7 +141,8 @@ type c04Seg struct {
 }
 
 type c04Exp struct {
-	Cls      string `json:"cls"` // ok | invalid | nopanic
+	Cls      string `json:"cls"` // ok | okerr | invalid | nopanic
+	Err      string `json:"err"` // okerr: the class of the error the script delivers together with the frame's last byte(s)
 	ValSeg   int    `json:"val_seg"`
 	St       bool   `json:"st"`
 	Consumed int    `json:"consumed"`
@@ -163,6 +164,7 @@ type c04Case struct {
 	Trail int    `json:"trail"`
 	Cs    int    `json:"cs"`
 	Zero  int    `json:"zero"`
+	Fin   int    `json:"fin"` // 1: the last Read of the re-read carries data + io.EOF (FIN coalesced with the final bytes)
 	// varintPut cases
 	V  string `json:"v"`
 	Bl int    `json:"bl"`
@@ -359,6 +361,29 @@ func c04Read(c c04Case, res map[string]any) {
 				fail(fmt.Sprintf("reader did not consume exactly the frame: %d bytes left, %d expected", len(r.left), len(stream)-c.Exp.Consumed))
 			}
 		}
+	case "okerr":
+		// The script delivers every byte of a well-formed frame and reports a (non-EOF) error in the very Read that
+		// hands over the last of them.  Either the frame is read back identical, exactly as for "ok", or exactly
+		// that error is reported; in both cases exactly the frame has been consumed.
+		var want []byte
+		if c.Exp.ValSeg >= 0 {
+			want = segBytes[c.Exp.ValSeg]
+		}
+		switch {
+		case r.cls == "ok":
+			if !bytes.Equal(r.val, want) {
+				fail("value read back differs from the value written")
+			}
+			if c.Fn == "resp" && r.st != c.Exp.St {
+				fail("status read back differs")
+			}
+		case r.cls == c.Exp.Err && c.Exp.Err != "":
+		default:
+			fail("complete frame delivered together with a transport error (" + c.Exp.Err + "): neither read back nor that error reported (" + r.cls + ")")
+		}
+		if !bytes.Equal(r.left, stream[c.Exp.Consumed:]) {
+			fail(fmt.Sprintf("reader did not consume exactly the frame: %d bytes left, %d expected", len(r.left), len(stream)-c.Exp.Consumed))
+		}
 	case "invalid":
 		if r.cls != "invalid" {
 			fail("over-limit / empty length not rejected as a protocol error (" + r.cls + ")")
@@ -524,10 +549,20 @@ func c04Write(c c04Case, res map[string]any) {
 			if c.Fn == "req" {
 				fn = "srv"
 			}
+			fin := ""
+			if c.Fin == 1 {
+				// the peer closes its send side right behind what it wrote: the last Read carries data + io.EOF
+				if len(cuts) == 0 {
+					cuts = [][2]int{{len(stream), 1}}
+				} else {
+					cuts[len(cuts)-1][1] = 1
+				}
+				fin = ", the last Read carrying data + io.EOF"
+			}
 			r := c04RunReader(fn, stream, cuts)
 			switch {
 			case r.cls != "ok":
-				fail("written frame is not read back (" + r.cls + " " + r.pmsg + ")")
+				fail("written frame is not read back (" + r.cls + " " + r.pmsg + fin + ")")
 			case !bytes.Equal(r.val, val):
 				fail("written value is not read back identical")
 			case c.Fn == "resp" && r.st != c.Ok:
